@@ -15,11 +15,15 @@ The translation is an abstract interpretation of the function body that forgets 
 * expressions are translated by the classification table in `tables.py` (printed into the evidence as
   `classification_table`), see `tables.TABLE_DOC` for the rules in words;
 * calls into persim are inlined per call site, with fresh variables and allocation sites for each site (recursion-free);
+* variables may hold FUNCTION VALUES (persim functions, lambdas, external functions, bound methods, …): a call through a variable
+  applies every function value it is known to hold; a call through anything the translator cannot resolve is an UNKNOWN CALL,
+  which may write everything reachable from its arguments and its receiver (`Frame.unknown_call`);
 * subscripts / iteration / unpacking give `copy`+`elem` (a view of the same buffer, or an element of the container);
 * `x.attr = v` is `setattr` (an instance's attribute table is not an array or list), `x.attr` is `elem`.
 
 Nothing here decides the property: the emitted programs are checked by the Lean checker (`safe`), whose soundness is
-`PersimVerif.C19.checked_no_owned_write`.
+`PersimVerif.C19.checked_no_owned_write`; `wellFormed` (obligation `wf_<entry>`) checks that no instruction reads a variable
+that nothing defines, so that a dropped defining instruction is an error and not an empty points-to set.
 """
 import ast, os, json, sys
 from . import tables as T
@@ -1846,6 +1850,10 @@ class Result:
         self.classification = ("pyplot " if T.PYPLOT_GLOBAL in self.reads + self.writes else "") + ("rng " if self.uses_rng else "") + \
             " ".join("global:" + names.get(g, str(g)) for g in sorted(set(self.reads + self.writes)) if g != T.PYPLOT_GLOBAL)
         self.classification = self.classification.strip() or "pure"
+        # a literal second call provably returns an equal result (Props/C19.lean `second_call_same_result`): safe, no global
+        # read or written, no RNG, and no attribute table of a caller-owned object updated (methods with lazy caches are not)
+        self.repeatable = (self.kind == "obligation" and self.safe and self.classification == "pure" and not allowed and not self.allow_rng
+                           and not any(op == SETATTR and sol["pts"][a] & 1 for op, a, b in prog.instrs))
 
     def lean(self):
         i, prog, sol = self.ident, self.prog, self.sol
@@ -1869,6 +1877,11 @@ class Result:
                        % (i, i, ", ".join(map(str, self.allowed_globals)), ", ".join(map(str, self.allowed_globals)),
                           "true" if self.allow_rng else "false"))
             out.append("theorem wf_%s : wellFormed ir_%s sol_%s = true := by decide +kernel" % (i, i, i))
+            if self.repeatable:
+                # no module-level state, no RNG, no attribute update of a caller-owned object: `second_call_same_result` applies
+                out.append("private theorem attrs_%s : (ir_%s).instrs.all (attrsOk sol_%s) = true := by decide +kernel" % (i, i, i))
+                out.append("theorem repeat_%s : pureCall ir_%s sol_%s = true ∧ globalsWithin ir_%s [] [] false = true :=\n"
+                           "  ⟨pureCall_of_safe _ _ safe_%s attrs_%s, glob_%s⟩" % (i, i, i, i, i, i, i))
         elif self.kind == "inplace_by_contract":
             out.append("/-- in place by documented contract (policy.json): the analysis must flag it — the solution is a genuine "
                        "post-fixpoint of a well-formed program, and it is not safe -/")
